@@ -3,10 +3,18 @@
 
 package simrt
 
-import "runtime"
+import (
+	"runtime"
+	"unsafe"
+)
 
 // RaceBuild reports whether the binary was built with -race.
 const RaceBuild = true
 
 func raceDisable() { runtime.RaceDisable() }
 func raceEnable()  { runtime.RaceEnable() }
+
+// happens-before edges for values handed over inside the scheduler (a send
+// that met its receiver in the pending-send registry, not in the real channel)
+func raceRelease(p unsafe.Pointer) { runtime.RaceReleaseMerge(p) }
+func raceAcquire(p unsafe.Pointer) { runtime.RaceAcquire(p) }
